@@ -215,7 +215,8 @@ def tol_for(name, a, b):
         ij = tuple(int(x) for x in name[2:name.index("(")].split(","))
         loose = any(ij in r.gf_dropped for r in runs)
     elif name.startswith("chi_") or name.startswith("X"):
-        loose = any(r.minw < 1e-6 for r in runs)
+        # against the oracle (b is None) always: the oracle sums every Lehmann term, the library drops residues below 1e-8
+        loose = b is None or any(r.minw < 1e-6 for r in runs)
     return (LOOSE if loose else EPS), ("loose" if loose else "tight")
 
 
@@ -252,7 +253,7 @@ def models(rng, quick):
     """(family, text without symm line, n modes, allow default)"""
     out = []
     fams = list(scen.FAMILIES) + [scen.pairing, scen.three_orbital_small]
-    reps = 1 if quick else 4
+    reps = 2 if quick else 6
     for _ in range(reps):
         for f in fams:
             fam, text, n, info = f(rng, "default")
@@ -262,7 +263,7 @@ def models(rng, quick):
             out.append((fam, text, n, beta))
     # heterogeneous lattices of the C07 generator (<= 4 modes so that chi stays cheap)
     k = 0
-    want_het = 6 if quick else 30
+    want_het = 10 if quick else 40
     while k < want_het:
         sc = C07.gen_scenario(rng)
         if sc.n() > 4 or sc.n() < 2:
@@ -293,7 +294,7 @@ def setup():
 def run(chk):
     quick = chk.tier == "quick"
     chk.level = "partial"
-    chk.prove()
+    chk.prove(["extract/Extract_ED.vo"])
     chk.trusted += ["harness/h_ed.cpp + ed_common.h, tools/edlib.py, the full-space oracle coq/theories/EDSpec.v at binary64 (ocaml/driver_ed.ml)",
                     "Eigen's self-adjoint solver (each run's eigen-decomposition is certified by the oracle: CERT record)"]
     chk.assume += ["C08 is claimed partial: independence of the eigenbasis inside degenerate subspaces and the 4-chains of TwoParticleGF::prepare are "
@@ -314,11 +315,11 @@ def run(chk):
         chk.tie_broken("h_ed", "canonical probe failed to run: %s %s" % (base.error or base.crash, cust.error or cust.crash))
     else:
         A, B = Obs(base, 2), Obs(cust, 2)
-        w = compare(A, B)
+        w = compare(A, B, [k for k in A.v if k.startswith("G_")]) or compare(A, B)
         chk.case("probe n0n1", "probe hubbard-atom custom n0*n1 accepted=%d" % B.nsym, True)
         if w:
             canonical_key = "partition-dependence: site A 1 2 | addCoulombS A 2 -1 | beta 1 | symm custom | iom n_0*n_1 vs symm ignore"
-            chk.violation(canonical_key, "%s = %r with the accepted integral of motion n_0 n_1 but %r with symmetries ignored" % (w[0], w[3], w[4]),
+            chk.violation(canonical_key, "%s = %r with the accepted integral of motion n_0 n_1 but %r with symmetries ignored" % (w[0], w[4], w[3]),
                           {"harness": "h_ed", "scenario_a": with_symm(ptext, "ignore"), "scenario_b": with_symm(ptext, "custom", pioms), "queries": q})
 
     for (fam, text, n, beta) in models(rng, quick):
@@ -329,17 +330,18 @@ def run(chk):
             results = list(ex.map(lambda p: run_partition(text, p[1], p[2], q), plist))
         for (pname, mode, ioms), r in zip(plist, results):
             stats["runs"] += 1
-            if r.crash:
-                chk.violation("crash: %s | %s" % (" | ".join(text.strip().split("\n")), pname), "the library crashed (%s) with partition %s" % (r.crash[0], pname),
-                              {"harness": "h_ed", "scenario": with_symm(text, mode, ioms), "queries": q})
-                continue
             if r.error:
                 if mode == "default" and "symm" in r.error:
-                    # the C07 finding (S_z constructor throws): not a C08 matter; the other partitions are still compared
+                    # the C07 finding (S_z constructor throws out of Symmetrizer::compute): not a C08 matter; the other
+                    # partitions of this model are still compared (the harness then has no model to query and exits abnormally)
                     stats["default_throws"] += 1
                     chk.case(text + pname, "%s | default analysis throws (C07 finding)" % fam, False)
                     continue
                 chk.tie_broken("h_ed", "%s / %s: %s" % (fam, pname, r.error))
+                continue
+            if r.crash:
+                chk.violation("crash: %s | %s" % (" | ".join(text.strip().split("\n")), pname), "the library crashed (%s) with partition %s" % (r.crash[0], pname),
+                              {"harness": "h_ed", "scenario": with_symm(text, mode, ioms), "queries": q})
                 continue
             o = Obs(r, n)
             if o.throws:
